@@ -386,7 +386,7 @@ func checkSubst(tpl string, groups []string) (kind, desc string) {
 var (
 	// "\x00F" = Forge suffix, "///" = TCPShield separator, "$1" = text that looks like a parameter
 	hostSyms = []string{"a", "B", ".", "*", "?", "\\", "(", "é", "É", "\n", "\x00F", "///", "$1"}
-	patSyms  = []string{"a", "b", ".", "*", "?", "\\", "(", "É", "\n", "$1"}
+	patSyms  = []string{"A", "b", ".", "*", "?", "\\", "(", "É", "\n", "$1"}
 )
 
 func TestVerif(t *testing.T) {
